@@ -56,7 +56,7 @@ def _gen_lockstep(rng, seed):
         "seed": seed,
         "policy": rng.choice(["uniform", "coverage", "adversarial", "mixed", "mixed"]),
         "mode": mode,
-        "style": rng.choice(["frac", "frac", "decimal"]),
+        "style": rng.choice(["frac", "frac", "decimal", "minimal", "minimal"]),
         "explicit_last": rng.random() < 0.5,
     }
 
